@@ -580,7 +580,9 @@ func (w *world) end(s *vsched.Sched, r *vsched.Result) (string, string) {
 				return v, outcome
 			}
 		}
-		return "", fmt.Sprintf("%s released=%d", outcome, n)
+		if w.id != "C05" { // (C05's oracles below look at results and transport records only: they apply as they are)
+			return "", fmt.Sprintf("%s released=%d", outcome, n)
+		}
 	}
 	if w.misuse != "" {
 		if v := "C02: " + w.misuse; w.own(v) {
@@ -1219,6 +1221,10 @@ func c05Plans() []plan {
 	// waits that come from the library's linear and sine pacers (a schedule that is not a multiple of one interval)
 	add(params{W0: 1, M: 2, N: 3, Cause: "pacer", RealPacer: 3}, ev.Pick(1, 2))
 	add(params{W0: 2, M: 2, N: 3, Cause: "pacer", RealPacer: 4}, ev.Pick(1, 2))
+	// the library's linear and sine pacers handed over as they are (whatever the attack does with its pacer besides
+	// pacing happens on the real type)
+	add(params{W0: 1, M: 2, N: 0, Cause: "pacer", Direct: 3, Du: 4 * time.Second}, ev.Pick(1, 2))
+	add(params{W0: 1, M: 1, N: 0, Cause: "pacer", Direct: 4, Du: 5 * time.Second}, ev.Pick(1, 2))
 	// workers overtaken right after they leave the critical section that stamps sequence number and timestamp
 	add(params{W0: 2, M: 2, N: 2, Cause: "pacer", UP: true}, ev.Pick(2, 3))
 	add(params{W0: 1, M: 2, N: 3, Cause: "pacer", UP: true, ClockHit: true, Mode: vsched.ClockTicking}, ev.Pick(1, 2))
